@@ -18,8 +18,10 @@ RULE = ('Engine "serial-exhaustive": for each of a list of small DAGs (3-6 nodes
         'files under labtech/ during run_tasks, then the run is repeated FOR EVERY k with a trace function raising '
         'KeyboardInterrupt at the k-th event (= an interrupt delivered at that line boundary). Engine "serial-pairs": sampled '
         'pairs k1<k2 (second interrupt). Engine "controlled": Hypothesis DAGs/schedules under the schedule-owning Runner with the '
-        'injector restricted to lab.py (the coordinator\'s interrupt handling) at a drawn k. Engine "fork-lines": the same injector '
-        'in the parent of real fork runs (children untouched), k drawn from the dry-run range. Engine "signals": gated fork runs; '
+        'injector restricted to lab.py (the coordinator\'s interrupt handling) at a drawn k. Engine "fork-sites": under the real fork backend (incl. a DAG with more '
+        'ready tasks than workers, so futures queue inside the executor) every distinct line of lab.py / runners/process.py executed by the '
+        'PARENT receives an interrupt at its first, middle and last occurrence (located by file:line:occurrence, children untouched); '
+        '"fork-lines" adds drawn event indices on generated DAGs, gated and ungated. Engine "signals": gated fork runs; '
         'at a schedule-chosen resting point (j tasks blocked inside run(), q queued) real SIGINT is delivered to the worker '
         'processes and to the caller - once (then gates open) or twice (gates stay closed); fork and (few) spawn runs. Oracle, single interrupt: run_tasks '
         'raises exactly KeyboardInterrupt (never returns, never another exception); nothing is submitted/started after the '
